@@ -15,9 +15,9 @@ SPEC = dict(
     groups=[
         dict(name='rel', harness='h.cpp', tus=['src/base/QXmppTask.cpp'], cxxdefs={'VP_K': 3}, models=['models.c'],
              instances=[rel(n, c) for n in ('release_conv', 'release_same', 'release_void') for c in (1,)]),
-    ] + group(3, ('quick', 'thorough'), ['sched_int', 'sched_void', 'sched_uptr', 'sched_int_reenter', 'observers', 'reenter_void_then', 'reenter_int_refinish', 'reenter_uptr_refinish', 'reenter_observe'])
-      + group(4, ('thorough',), ['sched_int', 'sched_void', 'sched_uptr', 'sched_int_reenter']),
-    bounds=['K<=4 (quick) / K<=6 (thorough) nondeterministic operations from {copy task, then, finish, destroy context, drop task copy, drop/copy promise}', 'result types void, int, std::unique_ptr<int>', 'at most 2 task copies and 2 promise copies'],
+    ] + group(3, ('quick', 'thorough'), ['sched_int', 'sched_void', 'sched_uptr', 'sched_conv', 'sched_int_reenter', 'observers', 'reenter_void_then', 'reenter_int_refinish', 'reenter_uptr_refinish', 'reenter_observe'])
+      + group(4, ('thorough',), ['sched_int', 'sched_void', 'sched_uptr', 'sched_conv', 'sched_int_reenter']),
+    bounds=['K<=4 (quick) / K<=6 (thorough) nondeterministic operations from {copy task, then, finish, destroy context, drop task copy, drop/copy promise}', 'result types void, int, std::unique_ptr<int>, long finished with an int (converting finish(U&&))', 'at most 2 task copies and 2 promise copies'],
     assumptions=['then(ctx, f) is only called while ctx is alive (documented contract)', 'QPointer liveness is a ghost flag flipped by the harness (QtSharedPointer::ExternalRefCountData::getAndRef modelled)'],
     outside=['K beyond the bound', 'toFuture() (QFuture is Qt)'],
 )
